@@ -120,6 +120,45 @@ def main(tier, seed, replay):
     finally:
         wg.EXTRA['water'], wg.EXTRA['no_ranges'] = 0.0, False
     V.coverage['plugin_tour'] = {'worlds': ntour, 'model_plugins': sorted('%s/%s/%s' % t for t in seen)}
+    # the surface tour: area features whose max depth is given at points with strongly different values, with the depth dependent
+    # temperature models in their sentinel forms (adiabatic top / bottom): every thread works under another local bottom, so anything a
+    # model remembers about "the" bottom of the feature between calls is shared state
+    nsurf = 0
+    wg.EXTRA['no_ranges'] = True
+    try:
+        for ftype in wg.AREA:
+            for name in ('linear', 'adiabatic', 'chapman', 'uniform'):
+                if name == 'chapman' and ftype != 'continental plate':
+                    continue
+                wrng = random.Random(rng.getrandbits(48))
+                w = wg.gen_world(wrng, {'nfeatures': 1, 'types': [ftype], 'p_temperature': 1.0, 'allow_temperature': [name], 'p_composition': 1.0, 'p_grains': 0.5, 'p_velocity': 0.5,
+                                        'exotic': False})
+                f0, ft = w['json']['features'][0], w['truth']['features'][0]
+                if any(q[0] == 0.0 or q[1] == 0.0 for q in ft['poly']):
+                    continue
+                for m in f0.get('temperature models', []):
+                    if name == 'linear':
+                        m['bottom temperature'] = -1
+                        if wrng.random() < 0.5:
+                            m['top temperature'] = -1
+                    if name == 'chapman' and wrng.random() < 0.5:
+                        m['top temperature'] = -1
+                d0 = ft['d0']
+                d1 = ft['d1'] if ft['d1'] < 1e300 else d0 + 3e5
+                inner = [wg.point_in_poly_interior(wrng, ft['poly']) for _ in range(4)]
+                f0['max depth'] = [[wg.R(d1)]] + [[wg.R(d0 + (d1 - d0) * fr), [[wg.R(q[0]), wg.R(q[1])]]] for fr, q in zip((0.45, 1.7, 0.8, 1.3), inner)]
+                fn = os.path.join(workdir, 'surf%d.wb' % nsurf)
+                nsurf += 1
+                with open(fn, 'w') as f:
+                    f.write(wg.dumps(w['json']))
+                pts = []
+                for _ in range(40):
+                    q = wg.point_in_poly_interior(wrng, ft['poly'])
+                    pts.append((wg.wrap_lon(w['truth']['ctx'], q[0]), q[1], wrng.uniform(d0, d0 + 0.44 * (d1 - d0))))
+                jobs.append((fn, w['truth']['ctx'], pts, w['truth']['cross'], w['truth']['ncomp']))
+    finally:
+        wg.EXTRA['no_ranges'] = False
+    V.coverage['surface_tour_worlds'] = nsurf
     plan = []
     for (path, ctx, pts, cross, ncomp) in jobs:
         k += 1
